@@ -605,4 +605,6 @@ def check_C19(tier, seed):
     rep.bounds = {"model checking": mc_over, "generation": [g[0] or "cfg/StochasticNet_gen.cfg" for g in gens], "simulation": [p[0] for p in plans],
                   "traces": {"stations": [2, 3], "sessions": "ns+1..%d" % MAXSESS_TRACE, "schedulers": ["uncontrolled", "fcfs", "llf"],
                              "batteries": ["ideal", "2stage"]}}
+    from .hashseed import cross_hashseed
+    cross_hashseed(rep, "C19", "stoch", seed, 60 if tier == "quick" else 1500)
     return rep.finish()
